@@ -8,7 +8,7 @@ import z3
 
 from pyvc import mk, sym
 from pyvc.api import Contract, NativeCheck, outcome
-from pyvc.interp import LoopSpec
+from pyvc.interp import LoopSpec, PyRaise
 from pyvc.sym import SBool, SNum, SStr, SOpt, mk_bool, force
 from . import env, nodemodel as nm
 
@@ -200,7 +200,287 @@ collect_replay = search_replay('smtlib.collect_information(exprs)',
                                'from ddsmt import smtlib')
 
 
+# -- get_sort: failures of the inference are contained ---------------------------
+
+
+class AnyError(Exception):
+    """Stands for an arbitrary exception class the code does not name."""
+
+
+def setup_get_sort(eng):
+    setup_nodes(eng)
+    nm.install_abs(eng)
+
+
+def run_get_sort(eng, p):
+    sm = eng.load_module('ddsmt.smtlib')
+    nm.havoc_tables(eng, p)
+    node = nm.lazy_node(eng, p, 'n')
+
+    def aux(e, n):
+        # the case analysis may return anything or fail on ill-formed terms
+        k = p.choose(3, 'aux')
+        if k == 0:
+            raise PyRaise(AnyError('ill-formed term'))
+        if k == 1:
+            return None
+        return nm.lazy_node(e, p, 'sort')
+
+    eng.overrides['ddsmt.smtlib._get_sort_aux'] = aux
+    out = outcome(eng, sm.g['get_sort'], [node])
+    p.oblige('C04/get_sort/failure-contained', out.kind == 'return',
+             info={'outcome': repr(out), 'signature': 'get_sort propagates '
+                   'exceptions of _get_sort_aux'})
+
+
+GET_SORT_REPLAY = """
+import sys, itertools
+from harness import replaylib as R
+R.init_ddsmt()
+from ddsmt import smtlib
+# ill-formed terms that delta debugging produces from well-formed ones
+atoms = ['x', '1', '_', 'extract', 'bv1', 'bvneg', 'concat', 'zero_extend',
+         'fp', 'ite', 'select', '+']
+cands = [[a] for a in atoms] + [[a, b] for a in atoms for b in atoms]
+cands += [[['_', a, b], 'x'] for a in atoms for b in atoms]
+cands += [[['_', a, b, c], 'x'] for a in atoms for b in atoms
+          for c in ('x', '1')]
+smtlib.collect_information([])
+for pl in cands:
+    node = R.build(pl)
+    try:
+        smtlib.get_sort(node)
+    except Exception as e:
+        print('get_sort raised', type(e).__name__, e, 'on', R.sexpr(pl))
+        # the same term as a let binding crashes collect_information, which
+        # runs unguarded in the main process
+        exprs = [R.build(['assert', ['let', [['v', pl]], 'v']])]
+        try:
+            smtlib.collect_information(exprs)
+        except Exception as e2:
+            print('collect_information raised', type(e2).__name__, 'on',
+                  R.sexpr(R.plain(exprs[0])))
+        sys.exit(1)
+print('get_sort raised on none of', len(cands), 'ill-formed terms')
+sys.exit(0)
+"""
+
+
+# -- ddmin task generation: mutator failures are contained ------------------------
+
+
+class AdvMutator:
+    """Adversarial mutator: every method may fail or return junk."""
+
+    def __init__(self, eng, p, simp_cls, has_filter, kind):
+        self._eng, self._p, self._S = eng, p, simp_cls
+        self._kind = kind
+        if has_filter:
+            self.filter = self._filter
+        if kind == 'mutations':
+            self.mutations = self._mutations
+        elif kind == 'global':
+            self.global_mutations = lambda node, exprs: self._mutations(node)
+
+    def _filter(self, node):
+        k = self._p.choose(3, 'filter')
+        if k == 0:
+            raise PyRaise(AnyError('filter failed'))
+        return k == 1
+
+    def _mutations(self, node):
+        k = self._p.choose(5, 'mutations')
+        if k == 0:
+            raise PyRaise(AnyError('mutations failed'))
+        if k == 1:
+            return []
+        if k == 2:
+            return 42  # not iterable
+        simp = self._eng.call(self._S, [{node.attrs['id']: None}, []], {})
+        if k == 3:
+            return [simp]
+
+        def gen():
+            yield simp
+            raise PyRaise(AnyError('generator failed'))
+
+        return gen()
+
+    def __str__(self):
+        return 'adversarial mutator'
+
+
+AdvMutator.__module__ = 'contracts.c04'
+
+
+def setup_taskgen(eng):
+    env.static_options(eng, jobs=1)
+    nm.install(eng)
+
+
+def make_run_taskgen(has_filter, kind, gran):
+
+    def run(eng, p):
+        dd = eng.load_module('ddsmt.strategy_ddmin')
+        mu = eng.load_module('ddsmt.mutator_utils')
+        a = nm.mk_node(eng, 'assert', nm.mk_node(eng, 'f', 'x'))
+        b = nm.mk_node(eng, 'check-sat')
+        exprs = [a, b]  # traversal limited to the two top-level nodes
+        mut = AdvMutator(eng, p, mu.g['Simplification'], has_filter, kind)
+        tag = f'C04/TaskGenerator[{kind},filter={has_filter},gran={gran}]'
+        o = outcome(eng, dd.g['TaskGenerator'], [exprs, gran, mut, 1])
+        p.oblige(f'{tag}/init-raises-nothing', o.kind == 'return',
+                 info={'outcome': repr(o), 'signature':
+                       'mutator failure escapes ddmin task generation'})
+        if o.kind != 'return':
+            return
+        tg = o.value
+        nxt = eng.getattr(tg, '__next__')
+        for _ in range(8):
+            o = outcome(eng, nxt, [])
+            if o.kind == 'raise':
+                p.oblige(f'{tag}/next-raises-only-StopIteration',
+                         isinstance(o.value, StopIteration),
+                         info={'outcome': repr(o), 'signature':
+                               'mutator failure escapes ddmin task '
+                               'generation'})
+                return
+            t = o.value
+            p.oblige(f'{tag}/task-has-simplifications',
+                     isinstance(t.simplifications, list) and
+                     len(t.simplifications) > 0)
+
+    return run
+
+
+TASKGEN_REPLAY = """
+import sys
+from harness import replaylib as R
+R.init_ddsmt()
+from ddsmt import strategy_ddmin, smtlib, mutators_bv
+# a real mutator on an ill-formed node that reduction produces
+exprs = [R.build(['assert', ['=', ['bvnot'], 'x']])]
+smtlib.collect_information(exprs)
+try:
+    for m in (mutators_bv.BVDoubleNegation(), mutators_bv.BVConcatToZeroExtend()):
+        for exprs in ([R.build(['assert', ['bvneg']])],
+                      [R.build(['assert', ['concat']])]):
+            tg = strategy_ddmin.TaskGenerator(exprs, 1, m)
+            for t in tg:
+                pass
+except Exception as e:
+    print('ddmin task generation raised', type(e).__name__, e)
+    sys.exit(1)
+print('task generation contained the failure')
+sys.exit(0)
+"""
+
+
+# -- exit status ---------------------------------------------------------------------
+
+
+def setup_main(eng):
+    env.static_options(eng, profile=False)
+
+
+def run_main(eng, p):
+    cli = eng.load_module('ddsmt.cli')
+    main = eng.load_module('ddsmt.__main__')
+    DDE = cli.g['DDSMTException']
+    k = p.choose(6, 'ending')
+    names = ['normal', 'usage-error', 'interrupt', 'memory', 'sys.exit(1)',
+             'internal-error']
+
+    def ddsmt_main(e):
+        if k == 1:
+            raise PyRaise(e.call(DDE, ['input file is not a regular file'],
+                                 {}))
+        if k == 2:
+            raise PyRaise(KeyboardInterrupt())
+        if k == 3:
+            raise PyRaise(MemoryError())
+        if k == 4:
+            raise PyRaise(SystemExit(1))
+        if k == 5:
+            raise PyRaise(AnyError('bug'))
+        return None
+
+    eng.overrides['ddsmt.cli.ddsmt_main'] = ddsmt_main
+    o = outcome(eng, main.g['main'], [])
+    printed = p.ghost.get('printed', [])
+    N = 'C04/__main__.main'
+    if k == 0:
+        p.oblige(f'{N}/returns-0-on-completion',
+                 o.kind == 'return' and o.value == 0 and not printed)
+    elif k in (1, 2, 3):
+        p.oblige(f'{N}/returns-1-with-one-line[{names[k]}]',
+                 o.kind == 'return' and o.value == 1 and len(printed) == 1,
+                 info=repr((o, printed)))
+        if k == 1 and o.kind == 'return' and printed:
+            line = eng.to_str(printed[0])
+            p.oblige(f'{N}/usage-error-message',
+                     isinstance(line, str) and '\n' not in line and
+                     line.startswith('[ddsmt] Error: '))
+    elif k == 4:
+        p.oblige(f'{N}/SystemExit-propagates',
+                 o.kind == 'raise' and isinstance(o.value, SystemExit) and
+                 o.value.code == 1)
+    else:
+        # an internal error is not swallowed and never reported as success
+        p.oblige(f'{N}/internal-error-never-returns-0',
+                 not (o.kind == 'return' and o.value == 0))
+
+
+def run_bin(eng, p):
+    import types
+    r = mk.sint(p, 'main_result')
+    p.assume(z3.Or(r.z == 0, r.z == 1))
+    code = []
+
+    def fake_exit(c=0):
+        code.append(c)
+        raise SystemExit(c)
+
+    fake_exit.__module__ = 'contracts.c04'
+    eng.native_modules['sys'] = types.SimpleNamespace(
+        path=[], exit=fake_exit, argv=['ddsmt'])
+    eng.native_modules['multiprocessing'] = types.SimpleNamespace(
+        set_start_method=lambda m: None)
+    eng.module_stubs['ddsmt.__main__'] = {'main': lambda: r}
+    eng.modules.pop('ddsmt.__main__', None)
+    import os
+    try:
+        eng.run_script(os.path.join(eng.repo, 'bin', 'ddsmt'))
+        status = 0
+    except PyRaise as e:
+        if not isinstance(e.value, SystemExit):
+            raise
+        status = e.value.code
+        if status is None:
+            status = 0
+    p.oblige('C04/bin.ddsmt/exit-status-is-main-result',
+             mk_bool(sym._znum(status) == r.z),
+             info={'signature': 'bin/ddsmt ignores the value of main()'})
+
+
+BIN_REPLAY = """
+import subprocess, sys, os
+repo = os.environ.get('PYVC_REPO', '/repo')
+r = subprocess.run([sys.executable, os.path.join(repo, 'bin', 'ddsmt'),
+                    '/nonexistent-input.smt2', '/tmp/ddsmt-replay-out.smt2',
+                    '/bin/true'], capture_output=True, text=True)
+print('stdout:', r.stdout.strip(), '| exit status:', r.returncode)
+# a usage error must not exit with status 0
+sys.exit(1 if r.returncode == 0 else 0)
+"""
+
+
+def const_replay(script):
+    return lambda name, model, detail: {'script': script}
+
+
 def contracts(tier):
+    from pyvc.interp import PyRaise  # noqa
     cs = []
     for th in ('arithmetic', 'bv', 'datatypes', 'fp', 'strings'):
         cs.append(
@@ -222,4 +502,42 @@ def contracts(tier):
                      'sub-terms and children verified for an arbitrary '
                      'element with the symbol tables havocked'],
                  max_paths=20000))
+    cs.append(
+        Contract('C04/get_sort', ['ddsmt.smtlib.get_sort'], run_get_sort,
+                 setup=setup_get_sort, replay=const_replay(GET_SORT_REPLAY),
+                 assumptions=A_NODES + [
+                     '_get_sort_aux modelled adversarially: returns None or '
+                     'a node, or raises an arbitrary Exception']))
+    for has_filter in (True, False):
+        for kind in ('mutations', 'global'):
+            for gran in (1, 2):
+                cs.append(
+                    Contract(
+                        f'C04/TaskGenerator[{kind},filter={has_filter},'
+                        f'gran={gran}]',
+                        ['ddsmt.strategy_ddmin.TaskGenerator.__init__',
+                         'ddsmt.strategy_ddmin.TaskGenerator.__next__',
+                         'ddsmt.strategy_ddmin.TaskGenerator.__get_substs'],
+                        make_run_taskgen(has_filter, kind, gran),
+                        setup=setup_taskgen, tier='S',
+                        max_paths=8000,
+                        bound='input: 2 commands, max_depth 1 (containment does '
+                        'not depend on the shape); mutator adversarial: '
+                        'raise / [] / non-iterable / one proposal / '
+                        'generator failing after one proposal',
+                        replay=const_replay(TASKGEN_REPLAY),
+                        assumptions=['mutators modelled adversarially']))
+    cs.append(
+        Contract('C04/__main__.main', ['ddsmt.__main__.main'], run_main,
+                 setup=setup_main,
+                 assumptions=['cli.ddsmt_main abstracted: completes, or '
+                              'raises DDSMTException / KeyboardInterrupt / '
+                              'MemoryError / SystemExit(1) / an arbitrary '
+                              'exception']))
+    cs.append(
+        Contract('C04/bin.ddsmt', ['bin.ddsmt'], run_bin,
+                 replay=const_replay(BIN_REPLAY),
+                 assumptions=['__main__.main() abstracted: returns 0 or 1; '
+                              'a script that ends without sys.exit() exits '
+                              'with status 0']))
     return cs
